@@ -72,6 +72,7 @@ def U(name, entry, cfg=(0, 0, 0, 0), cap=100, unwind=72, tiers=QT, bound='', **k
     d.update(kw); return d
 HM_BOUND = 'key of %d..%d symbolic bytes, text of 0..%d symbolic bytes, %s; hash = uninterpreted consistent function'
 util_instances = [
+    U('dbg_hm_65', 'h_hmac', (65, 65, 0, 0), tiers=Q), U('dbg_hm_3', 'h_hmac', (3, 3, 0, 2), tiers=Q), U('dbg_hm_0_2', 'h_hmac', (0, 2, 0, 0), tiers=Q),
     U('crc_table', 'h_crc_table', unwind=10, bound='all 256 table entries (symbolic index)'),
     U('crc_bytes4', 'h_crc_bytes', (4, 0, 0, 0), cap=40, unwind=10, tiers=Q, solver='cadical', bound='all byte strings of length 0..4'),
     U('crc_bytes6', 'h_crc_bytes', (6, 0, 0, 0), cap=40, unwind=10, tiers=T, solver='cadical', timeout_s=900, bound='all byte strings of length 0..6'),
